@@ -33,32 +33,34 @@ theorem runAcc_fst (w : World) (s : BState) (acc : List (Obj × Reading)) (ops :
 def BundleInv (s : BState) (acc : List (Obj × Reading)) : Prop :=
   s.bundling = true → s.readCache = acc.map Prod.snd ∧ s.objsRead = acc.map Prod.fst
 
+theorem keeps_saveDescriptor (w : World) (s : BState) (n : Name) (objs : List Obj) :
+    KeepsBundle s (saveDescriptor w s n objs).st := by
+  unfold saveDescriptor
+  split
+  · apply keeps_andThen
+    · exact keeps_ensureAll w _ _ false
+    · intro s'; exact keeps_prepareStream w s' n _
+  · split <;> exact KeepsBundle.refl _
+
+theorem keeps_saveEvent (s : BState) (n : Name) (rd : List (Key × Val)) : KeepsBundle s (saveEvent s n rd).st := by
+  unfold saveEvent
+  split
+  · exact KeepsBundle.refl s
+  · exact keeps_composeEvent ..
+
 theorem save_not_bundling (w : World) (s : BState) : (save w s).st.bundling = false := by
   unfold save
   split
   · simp_all
   · split
     · simp only [Res.ok_st]; split <;> simp_all [saveEmptyClearsBundle]
-    · simp only
-      split
+    · split
       · rfl
       · rename_i n hn
-        have key : ∀ (r : Res) (f : BState → Res), r.st.bundling = false →
-            (∀ s', KeepsBundle s' (f s').st) → (r.andThen f).st.bundling = false := by
-          intro r f h1 h2
-          have := keeps_andThen r.st r f (KeepsBundle.refl _) h2
-          rw [this.2.2.2]; exact h1
-        apply key
-        · split
-          · have := keeps_andThen _ (ensureAll w { s with bundling := false, bundleName := none } s.objsRead false)
-              (fun s => prepareStream w s n (saveObjsDks s s.objsRead)) (keeps_ensureAll w _ _ _)
-              (fun s' => keeps_prepareStream w s' n _)
-            rw [this.2.2.2]
-          · split <;> rfl
-        · intro s'
-          split
-          · exact KeepsBundle.refl s'
-          · exact keeps_composeEvent ..
+        have := keeps_andThen _ (saveDescriptor w { s with bundling := false, bundleName := none } n s.objsRead)
+          (fun s' => saveEvent s' n (mergeReadings s.readCache)) (keeps_saveDescriptor ..)
+          (fun s' => keeps_saveEvent ..)
+        rw [this.2.2.2]
 
 theorem drop_not_bundling (s : BState) : (drop s).st.bundling = false := by
   unfold drop; split <;> simp_all
